@@ -362,6 +362,59 @@ func maxInt(a, b int) int {
 	return b
 }
 
+// bagSweepCases: valid bags whose record parts cross the converter's fixed buffer sizes (1 KiB for
+// record headers, 1 MiB for record data and chunk data, and twice those after a growth): the topic
+// of a connection swept so that the record header length runs through 1000..1130 and 2030..2150,
+// message data and message definitions of 1 MiB +- 8 and 2 MiB +- 4 bytes, each unchunked and inside
+// an uncompressed chunk.
+type bagSweep struct {
+	topicLen, dataLen, defLen int
+	chunked                   bool
+}
+
+func bagSweepCases() []bagSweep {
+	var out []bagSweep
+	for _, ch := range []bool{false, true} {
+		for l := 940; l <= 1110; l++ {
+			out = append(out, bagSweep{topicLen: l, dataLen: 5, chunked: ch})
+		}
+		for l := 1980; l <= 2130; l++ {
+			out = append(out, bagSweep{topicLen: l, dataLen: 5, chunked: ch})
+		}
+		for d := -8; d <= 8; d++ {
+			out = append(out, bagSweep{topicLen: 6, dataLen: 1<<20 + d, chunked: ch})
+			out = append(out, bagSweep{topicLen: 6, dataLen: 5, defLen: 1<<20 + d, chunked: ch})
+		}
+		for d := -4; d <= 4; d++ {
+			out = append(out, bagSweep{topicLen: 6, dataLen: 2<<20 + d, chunked: ch})
+		}
+	}
+	return out
+}
+
+func (c bagSweep) spec() *bagSpec {
+	topic := "/" + strings.Repeat("t", c.topicLen-1)
+	def := "string data\n"
+	if c.defLen > 0 {
+		def = strings.Repeat("#", c.defLen-len(def)) + def
+	}
+	s := &bagSpec{conns: []bagConn{{id: 0, topic: "/first", typ: "std_msgs/String", md5: "992ce8a1687cec8c8bd883ec73ca41d1", def: "string data\n"},
+		{id: 1, topic: topic, typ: "pkg/Two", md5: "00000000000000000000000000000002", def: def}}}
+	mk := func(n int, seed byte) []byte {
+		d := make([]byte, n)
+		for k := range d {
+			d[k] = byte(k*7) + seed
+		}
+		return d
+	}
+	// a small message first (buffers at their initial size), then the record under test, then a small one again
+	s.msgs = []bagMsg{{conn: 0, secs: 1, nsecs: 1, data: mk(3, 1)}, {conn: 1, secs: 2, nsecs: 0, data: mk(c.dataLen, 2)}, {conn: 0, secs: 3, nsecs: 0, data: mk(4, 3)}}
+	if c.chunked {
+		s.partition, s.comps = [][]int{{0, 1, 2}}, []string{"none"}
+	}
+	return s
+}
+
 // checkBagConversion converts and compares with the model; it returns "" or what is wrong.
 func checkBagConversion(s *bagSpec, cfg gow.Config, bag []byte, order []int) (class, what string) {
 	var out bytes.Buffer
@@ -764,7 +817,7 @@ func convertGuard(tag string, b []byte) iso.Outcome {
 
 // C18: ROS bag and ROS 2 db3 conversion keeps every message, in order.
 func C18(r *chk.Run) {
-	r.Rule("(a) every generated bag: connection id sets from {0,1,65535}, shared and distinct (type, md5) pairs incl. the same type name with different md5, two connections on one topic, <=3 messages of size {0,5[,>1 MiB]} at times {0,(1,1),(2^32-1,999999999)}, every chunk partition x {none, lz4} x connection records repeated or not, and unchunked, x 3 MCAP writer configurations, plus the same contents written by go-rosbag's own Writer (chunking by size {every record, 100 B, 64 KiB} x {none, lz4}); the output is decoded by the reference decoder and compared with the bag; (b) every generated SQLite database: 1..3 topics over 3 message types (nested, shared sub-types) and one non-message type, with/without the QoS column, <=3 messages incl. equal timestamps and topics without messages; (c) corruptions of a valid bag: every truncation position, and every byte position outside the header padding x widths 1/2/4 x hostile values, plus bad magic; all conversions run in isolated workers (process exit, fatal errors and stalls are observed); distinct = cases run")
+	r.Rule("(a) every generated bag: connection id sets from {0,1,65535}, shared and distinct (type, md5) pairs incl. the same type name with different md5, two connections on one topic, <=3 messages of size {0,5[,>1 MiB]} at times {0,(1,1),(2^32-1,999999999)}, every chunk partition x {none, lz4} x connection records repeated or not, and unchunked, x 3 MCAP writer configurations, plus the same contents written by go-rosbag's own Writer (chunking by size {every record, 100 B, 64 KiB} x {none, lz4}); plus length sweeps (record header through 1 KiB and 2 KiB, message data / message definition through 1 MiB and 2 MiB, unchunked and in a chunk: the converter's buffer sizes); the output is decoded by the reference decoder and compared with the bag; (b) every generated SQLite database: 1..3 topics over 3 message types (nested, shared sub-types) and one non-message type, with/without the QoS column, <=3 messages incl. equal timestamps and topics without messages; (c) corruptions of a valid bag: every truncation position, and every byte position outside the header padding x widths 1/2/4 x hostile values, plus bad magic; all conversions run in isolated workers (process exit, fatal errors and stalls are observed); distinct = cases run")
 	r.Assume("the harness' bag encoder follows the ROS bag v2.0 specification (every bag it emits is read back by go-rosbag's linear and index-based readers first; a disagreement aborts the run as a harness error); ament index trees and SQLite files are generated by the harness (github.com/mattn/go-sqlite3, in-memory)")
 	big := r.Thorough()
 	thorough := r.Thorough()
@@ -777,6 +830,7 @@ func C18(r *chk.Run) {
 	if wn == "" || wn == "C18/db3" {
 		dbCases = explore.Enumerate(func(x *explore.Ctx) { genDB3(x) })
 	}
+	sweeps := bagSweepCases()
 	seed := c18SeedBag()
 	pos := bagPositions(seed)
 	vals := map[int][]uint64{1: {0, 1, 0x80, 0xff}, 2: {0, 0xffff, 0x8000}, 4: {0, 1, 1 << 16, 1<<31 - 1, 1 << 31, 1<<32 - 1}}
@@ -828,6 +882,20 @@ func C18(r *chk.Run) {
 			s, cfg := genBag(explore.Replay(bagCases[i]), big)
 			return map[string]any{"choices": bagCases[i], "bag": fmt.Sprintf("%+v", *s), "writer": cfg.String()}
 		}},
+		{"bag-length-sweeps", len(sweeps), func(i int) []iso.Outcome {
+			sp := sweeps[i].spec()
+			bag, order := encodeBag(sp)
+			cfg := gow.Config{CRC: true, Chunked: true, ChunkSize: 4096}
+			var cls, what string
+			o := iso.Guard("Bag2MCAP", 1<<62, func(p any) string { return gow.PanicSite(p) }, func() error {
+				cls, what = checkBagConversion(sp, cfg, bag, order)
+				return nil
+			})
+			if o.Class == "ok" && cls != "ok" {
+				o.Class, o.Site = cls, what
+			}
+			return []iso.Outcome{o}
+		}, func(i int) any { return map[string]any{"sweep": fmt.Sprintf("%+v", sweeps[i])} }},
 		{"db3", len(dbCases), func(i int) []iso.Outcome {
 			s, cfg := genDB3(explore.Replay(dbCases[i]))
 			var cls, what string
